@@ -304,7 +304,7 @@ def rule_r5_r6(ctx, rep):
                                 rep.add("R6", fi.qname, n, f"the 'found' flag `{t.id}` can be reset inside the scan loop (it is assigned `{norm(n.value)}`, not the "
                                         f"constant True): whether the recommendation fires depends on the order of the children", fi.loc(n))
     rep.floor("text collections over descendants", 2)
-    rep.floor("flag assignments inside scan loops", 5)
+    rep.floor("flag assignments inside scan loops", 1)
 
 
 def run(ctx, rep):
